@@ -669,6 +669,27 @@ def scenarios():
                         {'op': 'mutate_meta', 't': 0, 'path': path,
                          'key': key, 'value': value}] + OBSERVE)
 
+    # files that carry statistics but nothing to count (binary, empty or no
+    # diff), analysed repeatedly, in two trees
+    idle = {'main': {}, 'via_constructor': True, 'changes': [
+        {'attrs': {}, 'files': [
+            {'meta': {'path': 'a', 'stats': {'insertions': 1, 'x': 1}},
+             'diff': b'\x00\x01\n', 'diff_type': 'binary'},
+            {'meta': {'path': 'b', 'stats': {'insertions': 2}}},
+            {'meta': {'path': 'c', 'stats': {'deletions': 3}}, 'diff': b''},
+            {'meta': {'path': 'd'},
+             'diff': b'@@ -1 +1 @@\n-a\n+b\n'}]}]}
+    out.append([{'op': 'new', 'tree': idle}, {'op': 'stats', 't': 0},
+                {'op': 'stats', 't': 0}, {'op': 'new', 'tree': idle},
+                {'op': 'stats', 't': 1}, {'op': 'stats', 't': 0},
+                {'op': 'mutate_meta', 't': 1, 'path': [0, 1],
+                 'key': 'stats', 'value': {'a': {}}},
+                {'op': 'assign', 't': 1, 'path': [0, 0], 'name': 'diff',
+                 'value': b'@@ -1 +1 @@\n-a\n+b\n'},
+                {'op': 'assign', 't': 1, 'path': [0, 0], 'name': 'diff_type',
+                 'value': 'text'},
+                {'op': 'stats', 't': 1}, {'op': 'stats', 't': 0}] + OBSERVE)
+
     # every assignment on a file that carries statistics and a diff
     for name, value in ASSIGNMENTS:
         out.append([{'op': 'new', 'tree': {
